@@ -13,8 +13,8 @@
  * The statistics invariant of cache.c is what the harness constructs: n_subpages == number of cached subpages of the page,
  * subno_min <= every cached subno <= subno_max (the range may be wider: the library never shrinks it).
  * Start page and subpage (START_PG, START_SUB; -1 = VBI_ANY_SUBNO) and the direction are grid constants too.
- * Symbolic in every instance: the call at which the callback stops the walk (or never) and the value it returns, the subpage a
- * VBI_ANY_SUBNO look-up returns.
+ * The subpage a VBI_ANY_SUBNO look-up returns (ANYSEL-th cached one) is a grid constant as well.
+ * Symbolic in every instance: the call at which the callback stops the walk (or never) and the value it returns.
  *
  * Contract asserted (what search.c relies on):
  *   - the callback sees only cached pages, each holding exactly one reference taken for the call;
@@ -61,6 +61,9 @@
 #endif
 #ifndef START_SUB
 #define START_SUB 0
+#endif
+#ifndef ANYSEL
+#define ANYSEL 0			/* which cached subpage of the page a VBI_ANY_SUBNO look-up returns (k-th in ascending order) */
 #endif
 #ifndef PRES
 #define PRES 0x1FF
@@ -184,7 +187,7 @@ V_HARNESS(h_c17_foreach)
 {
   int c, s, ret = 12345, n = 0, called = 0; unsigned mask, sel;
   V_INIT();
-  (void) in_u16(); sel = in_u8(); fe_any_choice = in_u8() % W; fe_stop_at = in_u8(); fe_stop_val = (int) in_u32();
+  (void) in_u16(); sel = in_u8(); (void) in_u8(); fe_any_choice = ANYSEL;	/* concrete: a symbolic choice makes the start subpage, hence the whole walk, symbolic (no verdict in 900 s) */ fe_stop_at = in_u8(); fe_stop_val = (int) in_u32();
   mask = PRES;
   V_ASSUME(fe_stop_val != 0);
   for (c = 0; c < NC; c++) {
